@@ -180,7 +180,7 @@ def check_collection(seed):
                 rlwriter(env, output=fn, status_callback=Status(None))
             txt, npages = pdf_text(fn)
             info["pdf_pages"] = npages
-            flat = txt.replace("\n", " ")
+            flat = "".join(txt.split())      # a narrow table column breaks a word across lines: compare without white space
             missing = [w for w in allwords if w not in flat]
             if missing:
                 problems.append(f"PDF: {len(missing)} of {len(allwords)} words are not in the book: {missing[:6]}")
@@ -212,7 +212,7 @@ def check_collection(seed):
             with contextlib.redirect_stdout(buf), contextlib.redirect_stderr(buf):
                 t = test_mode_pdf(words[0][2], tmp)
             ws = words[0][1]
-            flat = t.replace("\n", " ")
+            flat = "".join(t.split())
             missing = [w for w in ws if w not in flat and not w.startswith("wqt") and w != "tplword"]
             if missing:
                 problems.append(f"PDF (test mode): {len(missing)} of {len(ws)} words are not in the page: {missing[:6]}")
